@@ -499,6 +499,29 @@ def check_roundtrip(cls, recipe, rec=None):
                                 f"to_partial(o).from_partial()", "same object")
             if rec is not None:
                 rec.cls("roundtrip_with_extra_fields")
+        # two partials providing the same extra field with values of different shape: a conflict like any other
+        P = cls.Partial
+        for va, vb in (([1], "b"), ("b", [1]), ({2}, 0), ([0], {"k": 1})):
+            try:
+                pa, pb = P.parse_obj({"xExtra": va}), P.parse_obj({"xExtra": vb})
+            except (ValidationError, ValueError, TypeError):
+                continue
+            try:
+                got = P.merge(pa, pb, allow_overwrite=True).__dict__.get("xExtra")
+            except Exception as e:  # noqa: BLE001
+                raise Violation(f"C14:merge-raises:{type(e).__name__}:extra-field-shapes", f"xExtra {va!r} then {vb!r}, allow_overwrite=True: "
+                                f"{type(e).__name__}: {e}", "the later value wins")
+            if got != pb.__dict__.get("xExtra"):
+                raise Violation("C14:merge-result:wrong:extra-field-shapes", f"xExtra {va!r} then {vb!r}: {got!r}", "the later value")
+            try:
+                P.merge(pa, pb)
+            except ValueError:
+                pass
+            except Exception as e:  # noqa: BLE001
+                raise Violation(f"C14:merge-raises:{type(e).__name__}:extra-field-shapes", f"xExtra {va!r} then {vb!r}, no overwrite: "
+                                f"{type(e).__name__}: {e}", "ValueError (conflict)")
+            else:
+                raise Violation("C14:conflict-silently-resolved:extra-field-shapes", f"xExtra {va!r} then {vb!r}", "ValueError")
     # the same object handed over in its serialised (plain data) form: empty (+) data == the object
     try:
         back3 = cls.Partial().merge_with(json.loads(o.json())).from_partial()
